@@ -482,6 +482,14 @@ CORPUS = [
      [[('w', 0, 1, 'new', 'file')], [('w', 0, 1, 'same', 'symlink-out')], [('w', 0, 0, 'new', 'symlink-out')], [('w', 1, 4, 'new', 'symlink-in')],
       [('rm', 0)]]),
     ('hardlink-shadows-symlink', [[('w', 0, 0, 'new', 'symlink-in')], [('w', 1, 1, 'new', 'hardlink')], [('w', 0, 4, 'new', 'symlink-in')], [('rm', 1)]]),
+    # a cache stack with several entries of ONE file (adjacent and separated), then that file goes away or drops the name
+    ('adjacent-entries-of-a-removed-file',
+     [[('w', 0, 0, 'new')], [('w', 1, 1, 'new')], [('w', 0, 4, 'new')], [('rm', 1)], [('w', 2, 0, 'new')], [('rm', 0)], [('rm', 2)]]),
+    ('adjacent-entries-of-a-file-that-drops-the-name',
+     [[('w', 0, 0, 'new')], [('w', 1, 1, 'new')], [('w', 0, 4, 'new')], [('rm', 1)], [('w', 2, 0, 'new')], [('w', 0, 2, 'new')], [('rm', 2)]]),
+    ('three-entries-of-one-file',
+     [[('w', 0, 0, 'new')], [('w', 1, 1, 'new')], [('w', 0, 4, 'new')], [('w', 1, 0, 'new')], [('w', 0, 0, 'new')], [('rm', 1)], [('w', 2, 1, 'new')],
+      [('rm', 0)], [('rm', 2)]]),
     ('own-stale-entry', [[('w', 0, 0, 'new')], [('w', 1, 1, 'new')], [('w', 0, 4, 'new')], [('rm', 1)], [('w', 2, 0, 'new')], [('rm', 2)], [('w', 0, 2, 'new')]]),
 ]
 
